@@ -547,3 +547,20 @@ def execute(sc, ctx):
     ctx.probe("family_" + fam)
     ctx.state_sig = golden["trace"]
     ctx.trace_override = golden["trace"]
+
+
+def extra_coverage(prop, recs):
+    pts = [r["res"].get("extra", {}).get("golden_points", 0) for r in recs if not r.get("skipped")]
+    fams = {}
+    for r in recs:
+        if r.get("skipped"):
+            continue
+        for k, v in r["res"].get("probes", {}).items():
+            if k.startswith("family_"):
+                fams[k[7:]] = fams.get(k[7:], 0) + v
+    return {
+        "crash_points_executed": sum(r["res"].get("extra", {}).get("subruns", 0) for r in recs if not r.get("skipped")),
+        "seam_points_per_operation_min_max": [min(pts) if pts else 0, max(pts) if pts else 0],
+        "scenarios_per_family": fams,
+        "exhaustive_within_scenario": "every seam point k of the golden run of each sampled scenario is used as a kill point",
+    }
